@@ -44,6 +44,7 @@ def gen(rng, tier, i):
     script = cgen.gen_script(rng, max_gates=rng.choice([8, 16, 30, 40]), max_in=6, max_ff=3)
     if rng.random() < 0.03: script = {'net': 'b01'}
     if r < 0.72:
+        if rng.random() < 0.02 and not script.get('net'): script['long_chain'] = rng.randrange(1 << 16)      # one net through 1200 forks in series (deeper than the default recursion limit)
         return {'mode': 'map', 'script': script, 'flavour': rng.choice(['wave', 'wave', 'logic', 'generic']), 'caps': wavegen.gen_caps(rng, p_fault=0.7),
                 'caps_min': rng.choice([1, 2, 4, 8]), 'small_caps': [rng.choice([1, 2, 3, 4, 8, 16]) for _ in range(rng.randint(1, 9))],
                 'knobs': [[a, b] for a in (False, True) for b in (False, True)], 'order_seed': rng.randrange(1 << 20),
